@@ -411,7 +411,7 @@ func checkC19(p *Prog, r *Report) {
 				}
 				/* Not-calm edge re-arms. */
 				if nil != calm {
-					miss := reachQ{From: Loc{calm.Block().Succs[notCalm], -1}, Target: isReturn, Block: func(j ssa.Instruction) bool { ok, _ := isReset(j); return ok }}.run()
+					miss := reachQ{From: edgeLoc(calm.Block(), notCalm), Target: isReturn, Block: func(j ssa.Instruction) bool { ok, _ := isReset(j); return ok }}.run()
 					if nil == miss {
 						rUn.OK(fnName(fn)+":rearm", posOf(calm), "when output is not yet calm the timer is re-armed")
 					} else {
@@ -429,7 +429,7 @@ func checkC19(p *Prog, r *Report) {
 	}
 	/* Already-muted edge of the callback: no writes, no reset. */
 	if ifi, tk := silTest(muteFn); nil != ifi {
-		hit := reachQ{From: Loc{ifi.Block().Succs[tk], -1}, Target: func(j ssa.Instruction) bool {
+		hit := reachQ{From: edgeLoc(ifi.Block(), tk), Target: func(j ssa.Instruction) bool {
 			if st, ok := j.(*ssa.Store); ok {
 				if fv, _ := fieldAddrOf(st.Addr); fv == sil || fv == last {
 					return true
@@ -503,13 +503,13 @@ func checkC19(p *Prog, r *Report) {
 		}
 		/* Without Ctrl+O nothing is suppressed: from the not-silenced edge the write is on every path to return. */
 		if nil != write {
-			if miss := (reachQ{From: Loc{ifi.Block().Succs[1-tk], -1}, Target: isReturn, Block: func(j ssa.Instruction) bool { return j == write }}).run(); nil != miss {
+			if miss := (reachQ{From: edgeLoc(ifi.Block(), 1-tk), Target: isReturn, Block: func(j ssa.Instruction) bool { return j == write }}).run(); nil != miss {
 				rRead.Bad(fnName(wp)+":never-dropped-unmuted", posOf(miss), "plain output can be dropped although output is not muted")
 			} else {
 				rRead.OK(fnName(wp)+":never-dropped-unmuted", posOf(write), "when not muted every plain line is written")
 			}
 		}
-		from := Loc{ifi.Block().Succs[tk], -1}
+		from := edgeLoc(ifi.Block(), tk)
 		switch {
 		case nil != (reachQ{From: from, Target: isReturn, Block: recordsNow}).run():
 			rArm.Bad(fnName(wp)+":suppressed-write-rearms", posOf(ifi), "a suppressed plain write does not record its time: muting ends although output is still arriving")
